@@ -146,7 +146,7 @@ def features(m: M.MDoc) -> set[str]:
 
 
 KNOWN_FEATURES = {
-    "frontmatter+sentinel", "empty-nested-block-with-sibling", "col0-comment-after-indented-body", "comment-after-empty-top-block", "reserved-word-key", "bare-zone-family",
+    "frontmatter+sentinel", "empty-nested-block-with-sibling", "col0-comment-after-indented-body", "comment-after-empty-top-block", "reserved-word-key",
     "single-bracket-item-with-and", "annotation-qualifier", "empty-comment", "nfc-escape", "duplicate-sibling-keys", "constructor-key-in-map",
 }
 
